@@ -24,6 +24,8 @@ EXPLANATION = (
     "`all.insert(n)` on that edge. (POS) positions stay in a finite universe: every position match_from inserts into a "
     "result set is its own `pos` or `pos + 1` under the guard `pos < hops.len()`."
 )
+EXPLANATION_ADD = " Additions: (FIRST-MATCH) only a non-matching entry continues the ACL scan; (RT-hop-predicate) a parsed predicate with an interface part structurally has an AS part; (PAREN-reset) no recursive parse_expr call inherits the caller's binding power."
+EXPLANATION = EXPLANATION + EXPLANATION_ADD
 RESIDUAL = [
     "ACL first-match semantics and hop-pattern language equality with the documented operators (values over all pattern/path pairs)",
     "print/parse round trip of hop predicates; insensitivity to redundant parentheses and whitespace",
